@@ -321,8 +321,12 @@ def check (b : Book) (f : List String) (o : String) : List String :=
       (if !authed then ["C17:push-without-client-authentication"] else []) ++
       (if hasUri == "1" then ["C17:push-containing-request_uri-accepted"] else [])
     else []
-  | ["authorize", _client, _rts, _redirect, _secure, _state, _nonce, _scopes, _aud, _gs, _ga, _sub, _challenge, _method] =>
-    if k == "authz" && b.cfgv "enforcePAR" == "1" then ["C17:unpushed-request-accepted-under-enforcement"] else []
+  | ["authorize", _client, _rts, _redirect, _secure, _state, _nonce, _scopes, _aud, _gs, _ga, _sub, challenge, method] =>
+    (if k == "authz" && b.cfgv "enforcePAR" == "1" then ["C17:unpushed-request-accepted-under-enforcement"] else []) ++
+    -- a challenge registered under a method that is neither S256 nor (enabled) plain can only be compared as plain later
+    (if k == "authz" && outField o "code" != "?" && challenge != "" &&
+        !(method == "S256" || ((method == "plain" || method == "") && b.cfgv "plain" == "1"))
+      then ["C03:challenge-accepted-under-unusable-method"] else [])
   | ["cc", client, cred, _scopes, _aud] =>
     match b.client client with
     | some c =>
